@@ -343,7 +343,7 @@ pub fn spec() -> PropSpec {
         ],
         subs: vec![Box::new(Sub {
             name: "perturb",
-            cases_quick: 400,
+            cases_quick: 240,
             cases_thorough: 4000,
             max_shrink_iters: 60,
             strategy,
